@@ -231,14 +231,23 @@ def strategy(max_tasks=5):
             for c in plan:
                 if c['cmd'] == 'action_update':
                     c['state'] = D.choice(['PAUSED', 'RUNNING', 'PAUSED'])
+        with_id = D.bool(0.4)
         if D.bool(0.3):
             # the definition changes between the deliveries of a message
             plan.append({'at': D.int(0, 25), 'cmd': 'update_defs', 'sel': 0})
             plan.sort(key=lambda c: c['at'])
+        if with_id and D.bool(0.4):
+            # the id-carrying start request is redelivered while the run is
+            # in progress, after the definition was updated
+            dups.insert(0, {'kind': 'start_workflow', 'nth': 0, 'copies': 1,
+                            'where': D.choice(['later', 'later', 'now'])})
+            plan = [c for c in plan if c['cmd'] != 'update_defs']
+            plan.append({'at': D.int(1, 4), 'cmd': 'update_defs', 'sel': 0})
+            plan.sort(key=lambda c: c['at'])
         return {'prog': prog, 'outcomes': outc, 'input': {},
                 'sched': enginerun.gen_schedule(D, max_devs=5),
                 'salt': D.int(0, 20), 'dups': dups, 'plan': plan,
-                'start_with_id': D.bool(0.4), 'resume_at_end': True}
+                'start_with_id': with_id, 'resume_at_end': True}
     return strat()
 
 
